@@ -122,7 +122,7 @@ func c02Judge(out *evid.Out, f *evid.Flags, idx int, p *gen.Program, res *gen.Re
 		occ := gen.MetaOccurrences(obj)
 		var first []byte
 		var firstK string
-		for _, k := range []string{"e", "c", "d", "o", "f", "a", "m", "s", "p", "v"} {
+		for _, k := range []string{"e", "c", "d", "o", "f", "a", "m", "s", "p", "v", "g", "h", "io", "ad", "ao", "aio", "cd", "co", "cio", "cg", "ca", "cm", "cv"} {
 			b, ok := occ[k]
 			if !ok {
 				continue
